@@ -171,7 +171,10 @@ class LeaderElection(Entity):
         leader = metadata.get("leader")
         term = metadata.get("term", 0)
 
-        if term >= self._current_term:
+        # A term has at most one leader: an equal-term heartbeat is only accepted from the
+        # leader already known for that term (or when none is known yet).
+        same_term_ok = term == self._current_term and self._current_leader in (None, leader)
+        if term > self._current_term or same_term_ok:
             self._current_leader = leader
             self._current_term = term
             self._last_leader_heartbeat = self.now.to_seconds()
